@@ -99,6 +99,17 @@ CLAIMED = {
             'time.time in bardolph.controller.light is virtual; devices are SimLan objects. Long histories are random walks, not '
             'TLC simulations (TLC\'s simulator is too slow on this alphabet).',
             'DESIGN.md section 6, C13'),
+    'C08': ('model_checking', 'TLC model check of a fine-grained PlusCal model of job_control.py + TLC trace validation (inferred linearization points) of real executions under a deterministic scheduler',
+            'Model level: spec/JobControl.tla mirrors job_control.py with one label per shared access and lock operation; TLC explores '
+            'every interleaving of 1-3 clients issuing add/insert/spawn for up to 4 jobs against the agent threads and checks '
+            'exclusion, take-in-queue-order (assert at the pop), started-at-most-once, drained => no jobs, background reported while '
+            'running, and under fairness that every job runs. Code level: the unmodified JobControl runs on real threads under '
+            'harness/detsched.py (baton scheduler; switch points at every source line of job_control.py and every lock/thread '
+            'operation); schedules from bounded-preemption DFS and seeded random walks; every execution (call/return per client, '
+            'body start/end, is_running samples, has_jobs at quiescence) is validated by TLC against the abstract controller '
+            'TraceJobQueue.tla, which infers where each add/insert took effect.',
+            'Lock acquisition is assumed never to time out. Sub-statement atomicity (one source line) is assumed, as the code does.',
+            'DESIGN.md section 6, C08'),
 }
 
 REASONS_PENDING = 'check not built yet in this round (planned in DESIGN.md section 6); no claim is made'
